@@ -759,6 +759,10 @@ func pipeMain(p PipeParams) {
 			pp.hist = append(pp.hist, "tick")
 			vrt.Sleep(pp.o.CheckpointInterval + 1)
 			pp.c.WaitIdle()
+			// histories are sequential: the periodic save has run to its end (incl. the unmark after the store
+			// call returned) before the next operation; acknowledgements racing a save are C05's scenarios
+			vrt.Quiesce()
+			pp.c.WaitIdle()
 		case op == "crash":
 			pp.hist = append(pp.hist, "crash")
 			pp.checkAll()
